@@ -85,7 +85,7 @@ class _PoolFake:
         return p
 
     def filter_variants(self, **kw):
-        return []
+        return ['FILTERED']
 
 
 class _Anno:
@@ -102,6 +102,8 @@ class _RefData:
 
 def run_wrapper(has_main, alt, nf, nc, fail_main, fail_f, fail_c, skip_failed, nct):
     calls = []
+    seen_pools = []
+    run_wrapper.seen_pools = seen_pools
 
     def main(**kw):
         calls.append('MAIN')
@@ -111,6 +113,7 @@ def run_wrapper(has_main, alt, nf, nc, fail_main, fail_f, fail_c, skip_failed, n
 
     def fusion(variant, **kw):
         calls.append(variant.id)
+        seen_pools.append(('F', list(kw['variant_pool']['TX'].transcriptional)))
         i = int(variant.id[3:])
         if fail_f[i]:
             raise Boom(variant.id)
@@ -118,6 +121,7 @@ def run_wrapper(has_main, alt, nf, nc, fail_main, fail_f, fail_c, skip_failed, n
 
     def circ(record, **kw):
         calls.append(record.id)
+        seen_pools.append(('C', list(kw['variant_pool']['TX'].transcriptional)))
         i = int(record.id[4:])
         if fail_c[i]:
             raise Boom(record.id)
@@ -186,6 +190,14 @@ def _check(has_main, alt, nf, nc, fm, ff, fc, skip_failed, nct):
     for k in want:
         if sorted(got[k]) != sorted(want[k]):
             return -6          # header entries of a peptide altered by another unit's failure
+    # every unit is called with the variants it is entitled to, whatever failed before it:
+    # a fusion sees the donor variants upstream of its breakpoint, a circRNA the full list
+    full = ['v'] if has_main else []
+    for kind, seen in run_wrapper.seen_pools:
+        if kind == 'F' and seen != ['FILTERED']:
+            return -11
+        if kind == 'C' and seen != full:
+            return -11
     wf = (not fm, not any(ff), not any(fc))
     if tuple(flags) != wf:
         return -7              # success flags do not report exactly the failing kinds
@@ -211,7 +223,8 @@ CODES = {-1: 'with --skip-failed a unit failure aborted the transcript',
          -7: 'success flags do not report exactly the failing kinds',
          -8: 'wrong transcript id returned',
          -9: 'graphs registered for a failed unit (or missing for a successful one)',
-         -10: "a circRNA was registered with another unit's graphs"}
+         -10: "a circRNA was registered with another unit's graphs",
+         -11: "a unit was called with a variant list altered by another unit (e.g. left truncated by a failed fusion)"}
 ENC = ['moPepGen.cli.call_variant_peptide.call_variant_peptides_wrapper']
 
 
